@@ -64,6 +64,26 @@ var specs = map[string]spec{
 		Real: realCore, Stub: stubKernel,
 		Assumptions: append([]string{"liveness is judged only in the fair phase (no faults, round-robin scheduling, time advances only at quiescence) and only for connections that are still open"}, assumeKernel...),
 	},
+	"C05": {
+		World: "core", Level: "exploration", QuickS: 30, ThoroughS: 600,
+		Rule: "cases = executor in {inline default, goroutine per call, bounded taskpool(3,2)} x 1-4 submitters x 1-6 jobs via Execute / MustExecute (jobs yield, panic, resubmit from inside) x Close invoked after k submissions have returned; oracle on the recorded history: run intervals pairwise disjoint, accepted jobs exactly once by quiescence, rejected jobs never, Execute false only if Close had been invoked and never true once Close had returned, starts ordered by real-time precedence of submissions (FIFO linearisation), successors of a panicking job run; non-trivial = >= 2 submitters or Close overlapped a submission; distinct = context-switch sequence hash",
+		Real: realCore, Stub: stubKernel,
+		Assumptions: append([]string{"FIFO is checked as real-time precedence (a returned before b was invoked => a runs before b) plus per-submitter order, which is exactly linearizability against a FIFO queue with a single consumer; porcupine is not needed for that"}, assumeKernel...),
+	},
+	"C16": {
+		World: "core", Level: "exploration", QuickS: 30, ThoroughS: 600,
+		Rule: "cases = timed histories of 2-14 operations from {SetReadDeadline, SetWriteDeadline, SetDeadline (set / renew / clear), Write that empties or does not empty the backlog, peer drain, sleep around the deadline (d-1, d, d+1 us), Close} on one connection in a random engine mode; the scheduler also jumps the clock to the next timer while goroutines are runnable (probability up to 5% per step); reference model of the documented semantics judges each timeout close (deadline of that kind expired and was still in force) and at quiescence each deadline in force that passed; non-trivial = a timeout close happened or a deadline was renewed/cleared within 2us of its expiry",
+		Real: realCore, Stub: stubKernel,
+		Assumptions: append([]string{"a renewal or clear whose call is invoked at a simulated time >= the deadline is allowed to lose the race; the write deadline is cleared only by a Write that returns with an empty true backlog (kernel ground truth)",
+			"HTTP and WebSocket keep-alive timing (the second half of C16) is exercised in the e2e world when claimed there; this check covers the core deadlines"}, assumeKernel...),
+	},
+	"C18": {
+		World: "core", Level: "exploration", QuickS: 40, ThoroughS: 900,
+		Rule: "cases = 0-4 connections (accepted / added / DialAsync connected / DialAsync never answered) with traffic, backlogs and pending deadlines, then Stop or Shutdown(live ctx) raced with late connects, peer closes, application closes and writes, optionally invoked right after Start; oracle: Stop returns in the fair phase, one close notification per opened connection at return, listener gone, no engine goroutine alive, no simulated descriptor open, no timer armed; non-trivial = some activity overlapped Stop; distinct = context-switch sequence hash",
+		Real: realCore, Stub: stubKernel,
+		Assumptions: append([]string{"this check covers the core engine (nbio.Engine); nbhttp.Engine.Stop/Shutdown is covered in the e2e world when claimed there",
+			"goroutines are attributed to the engine by the function that started them (nbio., taskpool., timer.)"}, assumeKernel...),
+	},
 	"C17": {
 		World: "core", Level: "exploration", QuickS: 40, ThoroughS: 900,
 		Rule: "same scenario as C01 with MaxWriteBufferSize M in 1..256KiB and write sizes placed around M and around the kernel capacity; oracle on the true backlog (accepted buffer bytes minus bytes the kernel model took): accepted => held <= M, refused => backlog+n > M, internal counter == true backlog whenever the connection mutex is free; non-trivial = a write landed within +-1 of the bound and a backlog formed",
